@@ -21,7 +21,10 @@ func init() {
 	register("C03", "fault_enumeration", 5*time.Minute, 40*time.Minute, runC03)
 }
 
-var c03BodyAtoms = []string{"a", "hello", " ", "  ", "    main()", " \n", "   ", "\n", "\r\n", "\x00", "\xff", "\xc3", "é", "世界", "=", "\"", "\\", "2024-01-01T00:00:00Z ", "\t", "x y z", "{\"a\":1}", "\x1b[31m"}
+var c03BodyAtoms = []string{"a", "hello", " ", "  ", "    main()", " \n", "   ", "\n", "\r\n", "\x00", "\xff", "\xc3", "é", "世界", "=", "\"", "\\", "2024-01-01T00:00:00Z ", "\t", "x y z", "{\"a\":1}", "\x1b[31m",
+	// byte sequences that tools like to "clean up": byte order marks, other invisible characters, line and
+	// paragraph separators, a replacement character that is really in the message
+	"\xef\xbb\xbf", "\xef\xbb\xbf", "\xff\xfe", "\xfe\xff", "\u200b", "\u00a0", "\u2028", "\u0085", "\ufffd", "\x7f", "\x08"}
 
 func genFrames(r *vk.RNG, maxN int) []Frame {
 	n := r.Range(0, maxN)
